@@ -49,7 +49,7 @@ def run(ctx):
     wline = 'pf 4 0 5 c 1 7 2 1 1 1 4 0'
     best = None
     for _ in range(3):
-        p = pf_common.parse_pf(pf_common.run_harness(exe, [wline])[0])
+        p = pf_common.parse_pf(plan_common.run_lines(exe, [wline])[0])
         if p and (best is None or p['maxconc'] > best['maxconc']):
             best = p
         if best and best['maxconc'] > 2:
@@ -78,7 +78,7 @@ def run(ctx):
         if N == 0 and wait == 0 and n > 0 and maxT % (1 << 32) != 0:
             wait = 1                                   # the C15 finding (division by zero) is C15's business
         fe.append({'cat': r.choice(['ra', 'bi']), 'n': n, 'N': N, 'maxT': maxT, 'wait': wait})
-    fe_out = pf_common.run_harness(exe, ['fe %s %d %d %d %d' % (c['cat'], c['n'], c['N'], c['maxT'], c['wait']) for c in fe])
+    fe_out = plan_common.run_lines(exe, ['fe %s %d %d %d %d' % (c['cat'], c['n'], c['N'], c['maxT'], c['wait']) for c in fe])
     fe_terms, fe_kept = [], []
     for c, o in zip(fe, fe_out):
         if o is None or not o.startswith('fe'):
